@@ -2526,14 +2526,18 @@ impl VmGreenThread {
 
     // TODO: this is not very incremental.
     fn start_mark_phase(&mut self) {
+        self.mark_roots();
+
+        self.gc_state = GcState::Marking;
+    }
+
+    fn mark_roots(&mut self) {
         // mark roots gray
         for v in self.value_stack.iter() {
             Self::mark(v, &mut self.gray_stack, self.gc_visited);
         }
         Self::mark(&self.string_operand1, &mut self.gray_stack, self.gc_visited);
         Self::mark(&self.string_operand2, &mut self.gray_stack, self.gc_visited);
-
-        self.gc_state = GcState::Marking;
     }
 
     fn mark(v: &Value, gray_stack: &mut Vec<*mut ObjectHeader>, gc_visited: bool) {
@@ -2603,7 +2607,13 @@ impl VmGreenThread {
             }
         }
         if self.gray_stack.is_empty() {
-            self.gc_state = GcState::Sweeping { index: 0 };
+            // The write barrier only covers stores into heap objects. A reference the program
+            // moved from a not-yet-scanned object onto the operand stack since the cycle started
+            // is reachable only from the roots, so they are scanned again before sweeping.
+            self.mark_roots();
+            if self.gray_stack.is_empty() {
+                self.gc_state = GcState::Sweeping { index: 0 };
+            }
         }
     }
 
